@@ -126,6 +126,9 @@ def explore(spec, per_state, *, seed=0, workers=None, log=None, time_cap=None):
     if time_cap is None and os.environ.get("EGMC_POOL_CAP_S"):
         time_cap = float(os.environ["EGMC_POOL_CAP_S"])
     t0 = time.time()
+    if os.environ.get("EGMC_DEADLINE"):
+        left = max(1.0, float(os.environ["EGMC_DEADLINE"]) - t0)
+        time_cap = left if time_cap is None else min(time_cap, left)
     seqs = sequences(spec)
     if seed:
         k = seed % max(1, len(seqs))
